@@ -4,6 +4,7 @@ import (
 	"fmt"
 	"math"
 	"strings"
+	"time"
 
 	lisp "github.com/jig/lisp"
 	"github.com/jig/lisp/reader"
@@ -293,6 +294,87 @@ func init() {
 				}
 			},
 		}
+		// values whose printed form is long (a preamble line of tens of kilobytes up to a megabyte)
+		bigLens := []int{1000, 4096, 32768, 65500, 65525, 65530, 65536, 70000, 200000, 1 << 20}
+		bigKinds := []string{"one-line string", "multi-line JSON text", "list of integers", "vector of short strings"}
+		bigValue := func(kind, n int) V {
+			switch kind {
+			case 0:
+				return model.Str(strings.Repeat("abcdefghij", n/10+1)[:n])
+			case 1:
+				var sb strings.Builder
+				sb.WriteString("{\n")
+				for k := 0; sb.Len() < n; k++ {
+					fmt.Fprintf(&sb, "  \"key%d\": \"va\\lue ¬ %d\",\n", k, k)
+				}
+				sb.WriteString("}")
+				return model.Str(sb.String())
+			case 2:
+				var el []V
+				for k, l := 0, 0; l < n; k++ {
+					el = append(el, model.Int(k))
+					l += len(fmt.Sprint(k)) + 1
+				}
+				return model.List(el...)
+			}
+			var el []V
+			for k, l := 0, 0; l < n; k++ {
+				el = append(el, model.Str(fmt.Sprintf("s%d", k)))
+				l += len(fmt.Sprint(k)) + 4
+			}
+			return model.Vec(el...)
+		}
+		big := &vf.Family{
+			Name:   "long-values",
+			Bounds: fmt.Sprintf("%d kinds of value (a one-line string, multi-line JSON text, a list of integers, a vector of short strings) x %d printed lengths from 1000 bytes to 1 MiB (several around 64 KiB), transported next to two small values in (list $a $b $c)", len(bigKinds), len(bigLens)),
+			N:      func(string) int64 { return int64(len(bigKinds) * len(bigLens)) },
+			Describe: func(i int64) string {
+				return fmt.Sprintf("%s of about %d bytes", bigKinds[i%int64(len(bigKinds))], bigLens[i/int64(len(bigKinds))])
+			},
+			Timeout: 120 * time.Second,
+			Run: func(i int64, r *vf.Rec) {
+				bv := bigValue(int(i%int64(len(bigKinds))), bigLens[i/int64(len(bigKinds))])
+				src := "(list $a $b $c)"
+				m := map[string]V{"$a": model.Int(7), "$b": bv, "$c": model.Str("t")}
+				expected := model.List(sym("list"), model.Int(7), bv, model.Str("t"))
+				im := map[string]types.MalType{}
+				for k, v := range m {
+					im[k] = model.ToImpl(v)
+				}
+				r.NT()
+				seen := map[string]bool{}
+				for try := 0; try < 40 && len(seen) < 6; try++ {
+					var text string
+					var err error
+					if p := lx.Guard(func() { text, err = lisp.AddPreamble(src, im) }); p != nil || err != nil {
+						r.Violation("AddPreamble fails on a long value", fmt.Sprint(err, p))
+						return
+					}
+					if seen[text] {
+						continue
+					}
+					seen[text] = true
+					var back types.MalType
+					if p := lx.Guard(func() { back, err = lisp.READWithPreamble(text, nil, nil) }); p != nil {
+						r.Violation("READWithPreamble panics: "+panicSig(p), p.String())
+						return
+					}
+					r.Exec(1)
+					if err != nil {
+						r.Violation("READWithPreamble(AddPreamble(src, values)) fails; a value is long", err.Error())
+						return
+					}
+					if got := model.FromImpl(back); !model.Identical(got, expected) {
+						gs := got.String()
+						if len(gs) > 300 {
+							gs = gs[:300] + "..."
+						}
+						r.Violation("READWithPreamble(AddPreamble(src, values)) differs from the substituted template; a value is long", "got "+gs)
+						return
+					}
+				}
+			},
+		}
 		// sources read with an EMPTY placeholder map: nothing of the source (its own leading
 		// ';; $...' comment lines included) may be taken for a preamble
 		emptySrcs := []struct {
@@ -344,7 +426,7 @@ func init() {
 			ID: "C15", Level: "model_checking",
 			Rule:        "every (template, name pair, value assignment) of the bounded space: the expected AST is the template with placeholder leaves replaced by the values (computed on the model ADT, no second reader); READWithPreamble(AddPreamble(src, m)) for every preamble line order, and Read_str(src, m), must be identical to it; every case is non-trivial",
 			Assumptions: []string{"names over letters, digits, '-' and '_'; values are data values that C06 shows readable (NUL excluded: C06 known finding)", "a source may start with its own ';; $...' comment lines: AddPreamble separates them from the preamble by a blank line"},
-			Families:    []*vf.Family{fam, empty},
+			Families:    []*vf.Family{fam, empty, big},
 		}
 	})
 }
